@@ -27,13 +27,13 @@ NA = {
 CHECKS = {
  "C03": dict(
    category="fault_enumeration",
-   text="Only the command-line clause of C03 is decided (the library-level clause is a pure function of the circuit and outside this technique; see DESIGN.md §4 C03). `quizx opt` is driven end to end on generated QASM files: in-process through -o, as the shipped binary on stdout, and as the shipped binary under injected input faults (missing file, directory, empty, torn at a statement boundary, torn mid token) and output faults (ENOSPC, torn write via RLIMIT_FSIZE, missing directory, directory target, stdout on /dev/full, broken pipe). Fault-free runs must exit 0 with a program that parses back, keeps the qubit count, uses only h/rz/cz/cx/swap and is projectively equal to the input by the harness's gate-matrix simulator; under faults success is accepted only with a complete program equivalent to the program the tool actually saw.",
+   text="Only the command-line clause of C03 is decided (the library-level clause is a pure function of the circuit and outside this technique; see DESIGN.md §4 C03). `quizx opt` is driven end to end on generated QASM files: in-process through -o, as the shipped binary on stdout, and as the shipped binary under injected input faults (missing file, directory, empty, torn at a statement boundary, torn mid token) and output faults (ENOSPC, torn write via RLIMIT_FSIZE, missing directory, directory target, stdout on /dev/full, broken pipe), and under a system-call seam (an LD_PRELOAD shim through which the decider makes the n-th open/read/write on the input file, the -o file or stdout transfer fewer bytes than asked, fail once with EINTR, or fail with EIO/ENOSPC/EDQUOT/EMFILE/EACCES/...). Fault-free runs must exit 0 with a program that parses back, keeps the qubit count, uses only h/rz/cz/cx/swap and is projectively equal to the input by the harness's gate-matrix simulator; under faults success is accepted only with a complete program equivalent to the program the tool actually saw.",
    design_ref="DESIGN.md §2.5, §4 C03",
    note="Trusted: harness gate-matrix simulator and QASM printer/parser (self-tested), /dev/full, RLIMIT_FSIZE and pipe semantics. Bounds: <=5 qubits, <=30 gates, phase denominators <=16. The default gflow extractor after each of the three strategies is exercised on every circuit, but the library-level quantifier (extractor modes, backends) is NOT claimed.",
    technique="fault injection around the real CLI (in-process and child process) with a gate-matrix reference simulator as oracle; seeded scenario generation, shrinking + replay files"),
  "C06": dict(
    category="exploration",
-   text="`quizx sim` is run in-process with the ambient-RNG seam (every Bernoulli draw of the sampler is a recorded decider decision), the fork-join seam (--parallel schedules and worker counts) and the Bernoulli observer installed, on generated QASM files, with every query kind, method and --parallel setting, each query repeated under another method and the other --parallel setting. Oracles from the harness's state-vector simulator: printed probability/expectation; S1 every printed sample has non-zero Born probability; S2 every (prefix, p) handed to a Bernoulli draw equals P(next=1 | prefix) - decidable pointwise only because the simulator owns the randomness; S3 chi-square of decider-driven samples at 1e-12. Malformed argv must be an error, not a panic or an answer. The shipped binary runs as a child for stdout/exit-status and under the same input/output fault kinds as C03.",
+   text="`quizx sim` is run in-process with the ambient-RNG seam (every Bernoulli draw of the sampler is a recorded decider decision), the fork-join seam (--parallel schedules and worker counts) and the Bernoulli observer installed, on generated QASM files, with every query kind, method and --parallel setting, each query repeated under another method and the other --parallel setting. Oracles from the harness's state-vector simulator: printed probability/expectation; S1 every printed sample has non-zero Born probability; S2 every (prefix, p) handed to a Bernoulli draw equals P(next=1 | prefix) - decidable pointwise only because the simulator owns the randomness; S3 chi-square of decider-driven samples at 1e-12. Malformed argv must be an error, not a panic or an answer. The shipped binary runs as a child for stdout/exit-status and under the same input/output fault kinds and the same system-call seam (short reads/writes, EINTR, errno failures at decider-chosen calls) as C03.",
    design_ref="DESIGN.md §4 C06",
    note="Trusted: harness gate-matrix simulator (exact ring for Clifford+T, f64 otherwise), bit i of a printed string = qubit i. Bounds: <=4 qubits quick / 5 thorough, <=14 gates, <=16 shots (400/2000 in the statistics sub-batch). Known finding recorded in known_findings.json: 'No ts!' panic for non-Clifford phases other than odd multiples of pi/4.",
    technique="deterministic simulation: seeded decider behind the sampler's RNG seam and the fork-join seam, state-vector reference model (support, pointwise conditional-probability and chi-square oracles), fault injection around the real CLI, shrinking + replay files"),
@@ -46,7 +46,7 @@ CHECKS = {
    engine="qsim + qmiri"),
  "C13": dict(
    category="exploration",
-   text="Seeded simulation of the qgraph round trip: the decider owns the generated diagram and, through the hash-order seam, the RandomState key of every map created in the encoder and in each of several independent decodes, so JSON member order, decoded vertex numbering and edge insertion order are recorded, replayable decisions instead of per-process accidents. Decoded graphs are compared with the original by an input/output-anchored isomorphism oracle (types, phases, edge types, coordinates), exact scalar comparison in Z[omega]/2^k for sqrt2^p e^{ik pi/4} and 1e-9 relative otherwise, tensor equality where evaluable, and pairwise between hash orders. The file form (write_graph/read_graph) runs on a real filesystem under injected ENOSPC, a torn write at a decider-chosen offset (RLIMIT_FSIZE, child process), missing directory and directory-as-target; only a reported success with a missing, undecodable or different file is a violation.",
+   text="Seeded simulation of the qgraph round trip: the decider owns the generated diagram and, through the hash-order seam, the RandomState key of every map created in the encoder and in each of several independent decodes, so JSON member order, decoded vertex numbering and edge insertion order are recorded, replayable decisions instead of per-process accidents. Decoded graphs are compared with the original by an input/output-anchored isomorphism oracle (types, phases, edge types, coordinates), exact scalar comparison in Z[omega]/2^k for sqrt2^p e^{ik pi/4} and 1e-9 relative otherwise, tensor equality where evaluable, and pairwise between hash orders. The file form (write_graph/read_graph) runs on a real filesystem under injected ENOSPC, a torn write at a decider-chosen offset (RLIMIT_FSIZE, child process), missing directory and directory-as-target, and with write_graph resp. read_graph in a child process behind a system-call seam (LD_PRELOAD shim: short writes / short reads, EINTR, errno failures at decider-chosen open/read/write calls); only a reported success with a missing, undecodable or different file is a violation.",
    design_ref="DESIGN.md §2.5, §4 C13",
    note="Trusted: the isomorphism checker (self-tested on permuted copies and on edge-type mutations at every start), the ZX evaluator, tmpfs//dev/full/RLIMIT_FSIZE semantics. Coordinates are compared to 1e-12 relative (serde_json's default float parser is not correctly rounded in the last bit); for phase denominators above 256 - outside the exactness clause - only agreement to 1/256 is demanded; a scalar whose dyadic coefficients equal the original is accepted even if flagged approximate. Bounds: <=10 spiders, <=6 boundaries.",
    technique="deterministic simulation: seeded decider behind the hash-order seam + fault injection on the real filesystem, anchored-isomorphism / exact-scalar / tensor oracles, shrinking + replay files"),
